@@ -79,6 +79,21 @@ CASES = {
         {MAIN: "PUSH32 0x" + "ff" * 32 + " PUSH0 MSTORE PUSH32 0x" + "ee" * 32 + " PUSH1 0x20 MSTORE "
                f"PUSH1 0x20 PUSH1 0x02 PUSH0 PUSH2 0x2000 EXTCODECOPY PUSH1 0x08 PUSH1 0x03 PUSH1 0x40 PUSH2 0x2000 EXTCODECOPY {RET}",
          0x2000: "PUSH1 0x2a PUSH0 MSTORE STOP"}, 1, False, {}, ["C01"]),
+    # hash + constant with the top bit set (h + (2**256-1) = h - 1 < h): the overflow shortcut must not apply
+    "hash-plus-huge-constant": (
+        {MAIN: "PUSH1 0x04 CALLDATALOAD PUSH0 MSTORE PUSH1 0x20 PUSH0 SHA3 DUP1 PUSH32 0x" + "ff" * 32 + " ADD LT "
+               f"PUSH @lt JUMPI PUSH1 0x01 PUSH0 MSTORE {RET} lt: PUSH1 0x02 PUSH0 MSTORE {RET}"},
+        1, False, {}, ["C01", "C02"]),
+    "hash-plus-signbit-constant": (
+        {MAIN: "PUSH1 0x04 CALLDATALOAD PUSH0 MSTORE PUSH1 0x20 PUSH0 SHA3 DUP1 PUSH32 0x80" + "00" * 30 + "05 ADD LT "
+               f"PUSH @lt JUMPI PUSH1 0x01 PUSH0 MSTORE {RET} lt: PUSH1 0x02 PUSH0 MSTORE {RET}"},
+        1, False, {}, ["C01", "C02"]),
+    # CALLCODE / CALL carrying a value with the top bit set: more than any admissible balance, the call must fail
+    "callcode-value-signbit": (
+        {MAIN: "PUSH0 PUSH0 PUSH0 PUSH0 PUSH32 0x80" + "00" * 31 + " PUSH2 0x2000 PUSH2 0xffff CALLCODE PUSH0 MSTORE "
+               f"PUSH0 PUSH0 PUSH0 PUSH0 PUSH1 0x04 CALLDATALOAD PUSH2 0x2000 PUSH2 0xffff CALLCODE PUSH1 0x20 MSTORE "
+               f"PUSH0 PUSH0 PUSH0 PUSH0 PUSH1 0x04 CALLDATALOAD PUSH2 0x2000 PUSH2 0xffff CALL PUSH1 0x40 MSTORE {RET}",
+         0x2000: "PUSH1 0x01 PUSH0 SSTORE STOP"}, 1, False, {}, ["C09", "C01"]),
     "call-revert-rolls-back": (
         {MAIN: f"PUSH1 0x05 PUSH1 0x01 SSTORE PUSH1 0x20 PUSH1 0x40 PUSH0 PUSH0 PUSH1 0x03 PUSH2 0x2000 PUSH2 0xffff CALL PUSH0 MSTORE PUSH1 0x40 MLOAD PUSH1 0x20 MSTORE PUSH2 0x2000 BALANCE PUSH1 0x60 MSTORE PUSH1 0x01 SLOAD PUSH1 0x80 MSTORE {RET}",
          0x2000: "PUSH1 0x09 PUSH1 0x01 SSTORE CALLVALUE PUSH0 MSTORE PUSH1 0x20 PUSH0 REVERT"}, 1, False, {}, ["C09", "C01"]),
